@@ -506,8 +506,16 @@ def makeBytes (n : Int) : Outcome Nat :=
   else if n.toNat > resourceBits / 8 then .resource "make([]byte, n) of more than 8 GiB"
   else .ok n.toNat
 
-/-- `_stdio_read($fd; $l)`: unknown fd names are errors; the length is used as it comes -/
+/-- `_stdio_read($fd; $l)`: unknown fd names are errors; a length outside 0..2^30 is an error
+    (since `fix: _stdio_read: error on negative or huge length …`) -/
+def maxReadLength : Int := 1073741824
 def stdioRead (fdKnown : Bool) (l : Int) : Outcome Nat :=
+  if !fdKnown then .err "unknown-fd"
+  else if l < 0 || l > maxReadLength then .err "read-length"
+  else makeBytes l
+
+/-- before the fix the length was used as it came -/
+def stdioReadOld (fdKnown : Bool) (l : Int) : Outcome Nat :=
   if !fdKnown then .err "unknown-fd" else makeBytes l
 
 /-! ## _tobits (binary.go:158-190) -/
@@ -623,8 +631,22 @@ def mapOutcome {α β} (f : α → Outcome β) : List α → Outcome (List β)
   | [] => .ok []
   | a :: as => (f a).bind fun b => (mapOutcome f as).bind fun bs => .ok (b :: bs)
 
-/-- to_radix($base) on an integer input; `none` = does not terminate -/
+/-- to_radix($base) on an integer input (radix.jq after `fix: radix: …`): a base below 2 is an
+    error before anything else; `none` = the fuel ran out (cannot happen for base >= 2 and
+    enough fuel: the chain shrinks) -/
 def toRadix (fuel : Nat) (n base : Int) : Outcome (Option String) :=
+  if base < 2 then .err "base too small" else
+  if n == 0 then .ok (some "0") else
+  (radixChain fuel n base).bind fun chain =>
+  match chain with
+  | none => .ok none
+  | some ns =>
+    (mapOutcome (fun x => jqMod x base) ns).bind fun ds =>
+    let digits := ds.reverse.drop 1
+    if base ≤ 64 then .ok (some (String.ofList (digits.flatMap tableChar))) else .err "base too large"
+
+/-- before the fix: no lower bound on the base — base 1 divides forever -/
+def toRadixOld (fuel : Nat) (n base : Int) : Outcome (Option String) :=
   if n == 0 then .ok (some "0") else
   (radixChain fuel n base).bind fun chain =>
   match chain with
@@ -639,14 +661,14 @@ def radixDigit (c : Char) : Option Int :=
   | some i => some i
   | none => none
 
-/-- from_radix($base) on a string of code points, integer base: a character outside the table
-    maps to null and `power * null` is a jq error -/
+/-- from_radix($base) on a string of code points, integer base (after the fix): the empty
+    string, a character outside the table and a digit >= base are jq errors -/
 def fromRadix (cs : List Char) (base : Int) : Outcome Int :=
-  let step (st : Outcome (Int × Int)) (c : Char) : Outcome (Int × Int) :=
-    st.bind fun (p, acc) =>
-      match radixDigit c with
-      | none => .err "multiply-null"
-      | some d => .ok (p * base, acc + p * d)
-  (cs.reverse.foldl step (.ok (1, 0))).bind fun (_, acc) => .ok acc
+  if cs.isEmpty then .err "empty string" else
+  (mapOutcome (fun c => match radixDigit c with
+      | none => .err "invalid char"
+      | some d => if d ≥ base then .err "invalid char" else .ok d) cs.reverse).bind fun ds =>
+  let step (st : Int × Int) (d : Int) : Int × Int := (st.1 * base, st.2 + st.1 * d)
+  .ok (ds.foldl step (1, 0)).2
 
 end FqModel.Total
